@@ -709,6 +709,160 @@ Proof.
   rewrite skipn_app_exact. rewrite <- app_assoc. reflexivity.
 Qed.
 
+(* ------------------------------------------------------------------ sessions *)
+(* a call the session theorems speak about *)
+Definition call_ok (cs : list conv) (os : list hopt) (cn : call * nat) : Prop :=
+  match fst cn with
+  | KZap extra f _ us => fe_sugared f = chain_kind (cs ++ extra) /\ 0 <= total_skip (cs ++ extra) /\ hd_not_log us = true
+  | KSlog _ _ _ => 0 <= hopts_skip os
+  | KOther _ => True
+  end /\ (1 <= snd cn)%nat.
+
+Lemma apply_chain_app : forall h a b, apply_chain (apply_chain h a) b = apply_chain h (a ++ b).
+Proof. intros h a b. unfold apply_chain. symmetry. apply fold_left_app. Qed.
+
+(* the closure on a freshly built bridge is the one-call model *)
+Lemma bridge_call_fresh : forall fuel l lv lf us storage,
+  fst (bridge_call fuel (new_bridge l) lv lf us storage) = log_std fuel l lv lf us storage.
+Proof. reflexivity. Qed.
+Lemma bridge_call_keeps : forall fuel b lv lf us storage,
+  snd (bridge_call fuel b lv lf us storage) = b.
+Proof. reflexivity. Qed.
+
+Definition bridges_fresh (L : handle) (st : bridges) : Prop := forall c, st c = new_bridge (base_of L).
+
+(* one step: the entry is the one the property demands, and nothing is left behind *)
+Lemma sstep_spec : forall fuel core cs os st cn,
+  (forall us, (length us + 12 <= fuel us)%nat) ->
+  bridges_fresh (apply_chain (HL (new_logger core)) cs) st ->
+  call_ok cs os cn ->
+  fst (sstep bridge_call fuel (apply_chain (HL (new_logger core)) cs) (new_handler core os) st cn)
+    = expected_call core cs os (fst cn)
+  /\ bridges_fresh (apply_chain (HL (new_logger core)) cs)
+       (snd (sstep bridge_call fuel (apply_chain (HL (new_logger core)) cs) (new_handler core os) st cn)).
+Proof.
+  intros fuel core cs os st [c storage] Hfuel Hinv [Hc Hst]. cbn [fst snd] in Hc, Hst.
+  unfold sstep. cbn [fst snd].
+  destruct c as [extra f lvl us|m slvl us|tag]; cbn [expected_call].
+  - destruct Hc as [Hk [Ht Hus]].
+    assert (G : log_via (fuel us) f (apply_chain (apply_chain (HL (new_logger core)) cs) extra) lvl us storage
+                = expected_zap core (cs ++ extra) f lvl us).
+    { rewrite apply_chain_app. apply log_via_spec; try assumption. apply Hfuel. }
+    destruct extra as [|e extra']; [|split; [cbn [fst]; now rewrite G|exact Hinv]].
+    destruct f as [m|fam m|c p]; try (split; [cbn [fst]; now rewrite G|exact Hinv]).
+    destruct (apply_chain (HL (new_logger core)) cs) as [l|l] eqn:EL;
+      [|split; [cbn [fst]; now rewrite G|exact Hinv]].
+    (* the session's bridge for constructor c *)
+    rewrite (Hinv c). cbn [base_of].
+    destruct (bridge_call (fuel us) (new_bridge l) (fe_level (FeStd c p) lvl) (std_frames c p) us storage) as [o l'] eqn:EB.
+    cbn [fst snd]. split.
+    + f_equal. rewrite <- G. cbn [apply_chain fold_left].
+      change o with (fst (o, l')). rewrite <- EB. reflexivity.
+    + intros c'. change l' with (snd (o, l')). rewrite <- EB, bridge_call_keeps.
+      unfold upd. destruct (Nat.eqb c' c); [reflexivity|apply Hinv].
+  - split; [|exact Hinv]. cbn [fst]. f_equal. apply slog_spec; [exact Hc|exact Hst|].
+    specialize (Hfuel us). lia.
+  - split; [reflexivity|exact Hinv].
+Qed.
+
+(* every history: each call of a session gets exactly what the property demands of it,
+   whatever was called before on the same values *)
+Lemma session_from : forall fuel core cs os calls st,
+  (forall us, (length us + 12 <= fuel us)%nat) ->
+  bridges_fresh (apply_chain (HL (new_logger core)) cs) st ->
+  Forall (call_ok cs os) calls ->
+  run_calls (sstep bridge_call fuel (apply_chain (HL (new_logger core)) cs) (new_handler core os)) st calls
+  = map (fun cn => expected_call core cs os (fst cn)) calls.
+Proof.
+  intros fuel core cs os calls. induction calls as [|cn r IH]; intros st Hfuel Hinv Hok; [reflexivity|].
+  inversion Hok as [|x y Hc Hr]; subst.
+  destruct (sstep_spec fuel core cs os st cn Hfuel Hinv Hc) as [S1 S2].
+  cbn [run_calls map].
+  destruct (sstep bridge_call fuel (apply_chain (HL (new_logger core)) cs) (new_handler core os) st cn) as [o st'].
+  cbn [fst snd] in S1, S2. rewrite S1. f_equal. apply IH; assumption.
+Qed.
+
+Lemma session_thm : forall fuel core cs os calls,
+  (forall us, (length us + 12 <= fuel us)%nat) ->
+  Forall (call_ok cs os) calls ->
+  run_calls (sstep bridge_call fuel (apply_chain (HL (new_logger core)) cs) (new_handler core os))
+            (init_bridges (apply_chain (HL (new_logger core)) cs)) calls
+  = map (fun cn => expected_call core cs os (fst cn)) calls.
+Proof.
+  intros fuel core cs os calls Hfuel Hok. apply session_from; [exact Hfuel| |exact Hok].
+  intros c. reflexivity.
+Qed.
+
+(* the entry of a call is the same after any two histories *)
+Lemma session_history_independent : forall fuel core cs os pre1 pre2 cn,
+  (forall us, (length us + 12 <= fuel us)%nat) ->
+  Forall (call_ok cs os) pre1 -> Forall (call_ok cs os) pre2 -> call_ok cs os cn ->
+  let run calls := run_calls (sstep bridge_call fuel (apply_chain (HL (new_logger core)) cs) (new_handler core os))
+                             (init_bridges (apply_chain (HL (new_logger core)) cs)) calls in
+  last (run (pre1 ++ [cn])) None = last (run (pre2 ++ [cn])) None
+  /\ last (run (pre1 ++ [cn])) None = expected_call core cs os (fst cn).
+Proof.
+  intros fuel core cs os pre1 pre2 cn Hfuel H1 H2 Hc run. unfold run.
+  rewrite !session_thm; try assumption;
+    try (apply Forall_app; split; [assumption|constructor; [assumption|constructor]]).
+  rewrite !map_app. cbn [map]. rewrite !last_last. split; reflexivity.
+Qed.
+
+(* the caller of the n-th call of any session is the frame of ITS OWN stack at the configured skip *)
+Lemma session_frame : forall fuel core cs os calls n extra f lvl us storage,
+  (forall us, (length us + 12 <= fuel us)%nat) ->
+  Forall (call_ok cs os) calls ->
+  nth_error calls n = Some (KZap extra f lvl us, storage) ->
+  core (fe_level f lvl) = true -> cfg_caller_on (cs ++ extra) = true ->
+  exists o,
+    nth_error (run_calls (sstep bridge_call fuel (apply_chain (HL (new_logger core)) cs) (new_handler core os))
+                         (init_bridges (apply_chain (HL (new_logger core)) cs)) calls) n = Some (Some o)
+    /\ caller_of o = nth_error us (Z.to_nat (total_skip (cs ++ extra))).
+Proof.
+  intros fuel core cs os calls n extra f lvl us storage Hfuel Hok Hn Hcore Hcal.
+  rewrite session_thm by assumption.
+  exists (expected_zap core (cs ++ extra) f lvl us). split.
+  - rewrite nth_error_map, Hn. reflexivity.
+  - assert (Hc : call_ok cs os (KZap extra f lvl us, storage)).
+    { rewrite Forall_forall in Hok. apply Hok. eapply nth_error_In. exact Hn. }
+    destruct Hc as [[Hk [Ht Hus]] Hst]. cbn [fst snd] in *.
+    rewrite <- (log_via_spec (fuel us) core (cs ++ extra) f lvl us storage Hk Ht Hst (Hfuel us) Hus).
+    apply frame_thm; try assumption. apply Hfuel.
+Qed.
+
+(* the model can express the failure: were the derived logger assigned to the captured
+   variable, the entry after a recovered log.Panic would name the caller's caller *)
+Definition leak_core : enabler := en_level DebugLevel.
+Definition leak_chain : list conv := [CWithOptions [OWithCaller true]].
+Definition leak_us : list frame := [FU 10; FU 11; FU 12; FU 99].
+Definition leak_calls : list (call * nat) :=
+  [(KZap [] (FeStd 0 4) 0 leak_us, initStorage); (KZap [] (FeStd 0 0) 0 leak_us, initStorage)].
+Lemma bridge_leak_refuted :
+  Forall (call_ok leak_chain []) leak_calls /\
+  run_calls (sstep bridge_call_leak (fun us => (length us + 12)%nat) (apply_chain (HL (new_logger leak_core)) leak_chain)
+                   (new_handler leak_core []))
+            (init_bridges (apply_chain (HL (new_logger leak_core)) leak_chain)) leak_calls
+  = [Some (Entry {| e_caller := Some (FU 10); e_stack := []; e_err := false |});
+     Some (Entry {| e_caller := Some (FU 11); e_stack := []; e_err := false |})]
+  /\ map (fun cn => expected_call leak_core leak_chain [] (fst cn)) leak_calls
+  = [Some (Entry {| e_caller := Some (FU 10); e_stack := []; e_err := false |});
+     Some (Entry {| e_caller := Some (FU 10); e_stack := []; e_err := false |})].
+Proof.
+  split; [|split; vm_compute; reflexivity].
+  repeat constructor; vm_compute; try reflexivity; intros H; discriminate H.
+Qed.
+
+Lemma call_okb_ok : forall cs os cn, call_okb cs os cn = true -> hd_not_log (match fst cn with KZap _ _ _ us => us | _ => [] end) = true -> call_ok cs os cn.
+Proof.
+  intros cs os [c storage] H Hus. unfold call_okb in H. cbn [fst snd] in *.
+  apply andb_true_iff in H. destruct H as [H Hst]. apply Nat.leb_le in Hst.
+  split; [|exact Hst]. cbn [fst].
+  destruct c as [extra f lvl us|m slvl us|tag].
+  - apply andb_true_iff in H. destruct H as [Hk Ht]. apply Bool.eqb_prop in Hk. apply Z.leb_le in Ht. auto.
+  - apply Z.leb_le in H. exact H.
+  - exact I.
+Qed.
+
 (* ------------------------------------------------------------------ wire *)
 Lemma sx_eqb_refl s : sx_eqb s s = true.
 Proof.
@@ -720,6 +874,16 @@ Qed.
 
 Lemma dec_us_user : forall s, hd_not_log (dec_us s) = true.
 Proof. intros s. unfold dec_us. destruct (sx_l s); reflexivity. Qed.
+
+Lemma wire_calls_ok : forall cs os s,
+  forallb (call_okb cs os) (wire_calls s) = true -> Forall (call_ok cs os) (wire_calls s).
+Proof.
+  intros cs os s H. rewrite forallb_forall in H. apply Forall_forall. intros cn Hin.
+  apply call_okb_ok; [apply H; exact Hin|].
+  unfold wire_calls in Hin. apply in_map_iff in Hin. destruct Hin as [x [Hx _]]. subst cn. cbn [fst].
+  unfold dec_call. destruct (sx_z (sx_nth x 0)) as [|q|q]; try reflexivity; [apply dec_us_user|].
+  destruct q; reflexivity.
+Qed.
 
 Theorem spec_model : forall i, wf i = true -> spec i (model i) = true.
 Proof.
@@ -734,12 +898,18 @@ Proof.
     + unfold initStorage. lia.
     + unfold fuel_for. lia.
     + apply dec_us_user.
-  - destruct p; try (rewrite trimmed_path_spec; apply sx_eqb_refl).
-    apply Z.leb_le in Hwf.
-    rewrite slog_spec.
-    + apply sx_eqb_refl.
-    + exact Hwf.
-    + unfold initStorage. lia.
-    + unfold fuel_for. lia.
+  - destruct p as [p|p|]; [destruct p as [p|p|]|..]; try (rewrite trimmed_path_spec; apply sx_eqb_refl).
+    + (* 3: a session *)
+      rewrite session_thm.
+      * rewrite map_map. apply sx_eqb_refl.
+      * intros us. unfold fuel_for. lia.
+      * apply wire_calls_ok. exact Hwf.
+    + (* 1: zapslog *)
+      apply Z.leb_le in Hwf.
+      rewrite slog_spec.
+      * apply sx_eqb_refl.
+      * exact Hwf.
+      * unfold initStorage. lia.
+      * unfold fuel_for. lia.
   - rewrite trimmed_path_spec. apply sx_eqb_refl.
 Qed.
